@@ -35,22 +35,17 @@ theorem completion_iff_100 (txids : List TxId) (H : Nat) (s : Tower) (done : Lis
       cases hst : t.status with
       | confirmedIn h =>
         simp only
-        by_cases hgt : h > H
-        · simp only [hgt, ↓reduceIte]
+        by_cases hc : Gen.isCompleted (H - h) = true
+        · simp only [hc, ↓reduceIte, true_iff]
+          simp only [Gen.isCompleted, decide_eq_true_eq] at hc
+          have : Gen.IRREVOCABLY_RESOLVED = 100 := rfl
+          exact ⟨h, rfl, by omega, hc⟩
+        · simp only [hc, Bool.false_eq_true, ↓reduceIte]
           constructor
           · intro e; exact absurd e hne
-          · rintro ⟨h', he, hle, _⟩; cases he; omega
-        · simp only [hgt, ↓reduceIte]
-          by_cases hc : Gen.isCompleted (H - h) = true
-          · simp only [hc, ↓reduceIte, true_iff]
-            simp only [Gen.isCompleted, beq_iff_eq, decide_eq_true_eq] at hc
-            exact ⟨h, rfl, by omega, hc⟩
-          · simp only [hc, Bool.false_eq_true, ↓reduceIte]
-            constructor
-            · intro e; exact absurd e hne
-            · rintro ⟨h', he, _, heq⟩
-              cases he
-              simp [Gen.isCompleted, heq] at hc
+          · rintro ⟨h', he, _, heq⟩
+            cases he
+            simp [Gen.isCompleted, heq] at hc
       | inMempoolSince h =>
         simp only
         constructor
